@@ -124,7 +124,7 @@ def invariant_definitions(ctx) -> tuple[FuncInfo, list[tuple[str, object]], ast.
     else:
         lst = target.node.args[1]
     if isinstance(lst, ast.Name):
-        lst = single_def(fi.node, lst.id)
+        lst = single_def(fi.node, lst.id) or lst          # a local name, or a module-level table (evaluated below)
     if lst is not None and not isinstance(lst, (ast.List, ast.Tuple)):
         # a table held elsewhere (module constant, built by a call): evaluate it
         from ..model import ConstInst
